@@ -461,3 +461,173 @@ c.loop(('dfs_stack', None),
            x.ghost.__setitem__('dfs_sel_len_at_step', x.env.selectors.len),
            x.ghost.__setitem__('dfs_stack_at_step', (x.env.dfs_stack.len,
                                                      x.env.dfs_stack.arr))))
+
+
+# ==== pop ==========================================================================================
+c = Contract('selector_map.py::SelectorMap.pop', ['C08'])
+c.self_kind = SelectorMap
+c.param('complete_selector', KStr)
+c.result = KVal
+c.modifies_self = ['_selector_map', '_selector_tree']
+register(c)
+c = _attach_wf('pop')
+for _lbl, _fn, _why in [
+    ('definition_of_ancestor', lambda x: anc_definition(), 'definition of anc'),
+    ('definition_of_depth', lambda x: depth_definition(), 'definition of depth'),
+    ('valid_names_are_not_empty', lambda x: sym.forall(
+        [s_], z3.Implies(valid(s_), s_ != sym.str_lit('')), patterns=[valid(s_)]),
+     'regex fact: SELECTOR_RE does not match the empty string')]:
+  c.assume_entry(_lbl, _fn, _why)
+c.local_kinds = {'selector_components': StrList}
+c.raise_case('absent', 'KeyError',
+             when=lambda x: z3.Not(M(x.self_old).dom[x.a.complete_selector.e]),
+             ensures=[('unchanged', lambda x: z3.And(
+                 same_map(x.self_new, x.self_old),
+                 SelTree.box(x.self_new.fields['_selector_tree']) ==
+                 SelTree.box(x.self_old.fields['_selector_tree'])))])
+c.raises_only_listed = True
+c.ensure('was_present', lambda x: M(x.self_old).dom[x.a.complete_selector.e])
+c.ensure('returns_the_stored_value',
+         lambda x: x.result.e == M(x.self_old).val[x.a.complete_selector.e])
+c.ensure('removes_exactly_this_name', lambda x: z3.And(
+    M(x.self_new).dom == z3.Store(M(x.self_old).dom, x.a.complete_selector.e, False),
+    M(x.self_new).val == M(x.self_old).val))
+for _i, (_lbl, _) in enumerate(wf_parts(SelectorMap.fresh('dummy'))):
+  c.ensure('representation_invariant_after/' + _lbl,
+           (lambda i: lambda x: wf_parts(x.self_new)[i][1])(_i))
+
+
+def _Ls(x):
+  return split_dot(x.a.complete_selector.e)
+
+
+def _pop_before1(ex, x):
+  L = _Ls(x)
+  Lb = StrList.box(L)
+  alive = T(x.self_old)[0]
+  x.path.assume(rp(Lb, z3.IntVal(0)) == nil)
+  i = z3.Int('i!sc')
+  x.path.assume(sym.forall([i], z3.Implies(z3.And(0 <= i, i < L.len),
+                                           L.arr[i] != sym.str_lit('$')), patterns=[L.arr[i]]))
+  lemmas(x, alive)
+  n = L.len
+  j0 = x.path.fresh_const('ind_j', sym.IntS)
+  q = 'selector_map.py::SelectorMap.pop/lemma/prefix_paths_are_ancestors'
+  P = lambda j: anc(rp(Lb, j), rp(Lb, n))
+  x.path.assume(rp(Lb, j0 + 1) == snoc(rp(Lb, j0), L.arr[L.len - (j0 + 1)]))
+  x.path.oblige(q + '/base', P(n))
+  x.path.oblige(q + '/step', z3.Implies(z3.And(0 <= j0, j0 < n, P(j0 + 1)), P(j0)))
+  x.path.assume(sym.forall([j_], z3.Implies(z3.And(0 <= j_, j_ <= n), P(j_)),
+                           patterns=[rp(Lb, j_)]))
+  # depth(rp(L, j)) == j  (integer induction; used to tell the dicts on the path apart)
+  j1 = x.path.fresh_const('ind_j', sym.IntS)
+  q2 = 'selector_map.py::SelectorMap.pop/lemma/depth_of_prefix_paths'
+  D = lambda j: depth(rp(Lb, j)) == j
+  x.path.assume(rp(Lb, j1 + 1) == snoc(rp(Lb, j1), L.arr[L.len - (j1 + 1)]))
+  x.path.oblige(q2 + '/base', D(z3.IntVal(0)))
+  x.path.oblige(q2 + '/step', z3.Implies(z3.And(0 <= j1, D(j1)), D(j1 + 1)))
+  x.path.assume(sym.forall([j_], z3.Implies(0 <= j_, D(j_)), patterns=[rp(Lb, j_)]))
+
+
+def _pop_inv1(x, k):
+  """nodes[j] is the dict at the path of the last j components, for j <= k."""
+  nodes = x.env.nodes
+  Lb = StrList.box(_Ls(x))
+  alive = T(x.env.self)[0]
+  return z3.And(
+      nodes.len == k + 1,
+      sym.forall([j_], z3.Implies(z3.And(0 <= j_, j_ <= k), z3.And(
+          nodes.arr[j_] == rp(Lb, j_), alive[nodes.arr[j_]])), patterns=[nodes.arr[j_]]),
+      SelTree.box(x.env.self.fields['_selector_tree']) ==
+      SelTree.box(x.self_old.fields['_selector_tree']),
+      M(x.env.self).dom == z3.Store(M(x.self_old).dom, x.a.complete_selector.e, False),
+      M(x.env.self).val == M(x.self_old).val)
+
+
+def _pop_step1(ex, x, k):
+  L = _Ls(x)
+  x.path.assume(rp(StrList.box(L), k + 1) ==
+                snoc(rp(StrList.box(L), k), L.arr[L.len - 1 - k]))
+
+
+c.loop(('selector_components', 'nodes.append'),
+       [Clause('nodes_are_the_dicts_along_the_path_of_the_name', _pop_inv1)],
+       before=_pop_before1, body_start=_pop_step1)
+
+
+# second loop: clear the terminal, then prune empty dicts upwards
+def _pop_inv2(x, m):
+  sm = x.env.self
+  alive, term, tval, tnone = T(sm)
+  alive0, term0, tval0, tnone0 = T(x.self_old)
+  L = _Ls(x)
+  Lb = StrList.box(L)
+  n = L.len
+  s = x.a.complete_selector.e
+  ps = rp(Lb, n)                                   # comps(s)
+  frontier = rp(Lb, n - m + 1)                     # the dict examined last (m >= 1)
+  mnew = M(sm)
+  # the tree only shrinks along the path; everything off the path is as before
+  on_path = lambda p: z3.Exists([j_], z3.And(0 <= j_, j_ <= n, p == rp(Lb, j_)))
+  parts = [
+      ('map', z3.And(M(sm).dom == z3.Store(M(x.self_old).dom, s, False),
+                     M(sm).val == M(x.self_old).val)),
+      ('lists', z3.And(
+          x.env.nodes.len == n + 1,
+          sym.forall([j_], z3.Implies(z3.And(0 <= j_, j_ <= n),
+                                      x.env.nodes.arr[j_] == rp(Lb, j_)),
+                     patterns=[x.env.nodes.arr[j_]]),
+          x.env.selector_components.len == n + 1,
+          x.env.selector_components.arr[n] == sym.str_lit('$'),
+          sym.forall([j_], z3.Implies(z3.And(0 <= j_, j_ < n),
+                                      x.env.selector_components.arr[j_] == L.arr[n - 1 - j_]),
+                     patterns=[x.env.selector_components.arr[j_]]))),
+      ('terminals', z3.And(
+          tval == tval0,
+          sym.forall([pi_], term[pi_] == z3.And(term0[pi_], z3.Or(pi_ != ps, m == 0)),
+                     patterns=[term[pi_]]),
+          z3.Implies(m == 0, z3.And(term[ps], tnone[ps])),
+          sym.forall([pi_], z3.Implies(pi_ != ps, tnone[pi_] == tnone0[pi_]),
+                     patterns=[tnone[pi_]]))),
+      ('alive_shrinks_only_on_the_path', z3.And(
+          sym.forall([pi_], z3.Implies(alive[pi_], alive0[pi_]), patterns=[alive[pi_]]),
+          sym.forall([pi_], z3.Implies(z3.And(alive0[pi_], z3.Not(alive[pi_])), z3.Exists(
+              [j_], z3.And(n - m + 2 <= j_, j_ <= n, pi_ == rp(Lb, j_)))),
+              patterns=[alive0[pi_]]))),
+      ('terminals_are_alive', sym.forall([pi_], z3.Implies(term[pi_], alive[pi_]),
+                                         patterns=[term[pi_]])),
+      ('path_above_frontier_alive', sym.forall(
+          [j_], z3.Implies(z3.And(0 <= j_, j_ <= n - m + 1, j_ <= n), alive[rp(Lb, j_)]),
+          patterns=[rp(Lb, j_)])),
+      ('closed', sym.forall([pi_, c_], z3.Implies(alive[snoc(pi_, c_)], alive[pi_]),
+                            patterns=[alive[snoc(pi_, c_)]])),
+      ('pruned_except_frontier', sym.forall([pi_], z3.Implies(
+          z3.And(alive[pi_], pi_ != nil, z3.Or(m == 0, pi_ != frontier)),
+          z3.Or(term[pi_], z3.Exists([c_], alive[snoc(pi_, c_)]))), patterns=[alive[pi_]])),
+  ]
+  return parts
+
+
+POP2_LABELS = ['map', 'lists', 'terminals', 'alive_shrinks_only_on_the_path',
+               'terminals_are_alive', 'path_above_frontier_alive', 'closed',
+               'pruned_except_frontier']
+
+
+def _pop_before2(ex, x):
+  L = _Ls(x)
+  x.ghost['pop_n'] = L.len
+
+
+def _pop_step2(ex, x, m):
+  # definition of rp at the indices this iteration talks about
+  L = _Ls(x)
+  Lb = StrList.box(L)
+  n = L.len
+  for idx in (n - m + 1, n - m, n - m + 2):
+    x.path.assume(z3.Implies(idx >= 1, rp(Lb, idx) == snoc(rp(Lb, idx - 1), L.arr[L.len - idx])))
+
+
+c.loop(('zip(reversed(selector_components), reversed(nodes))', None),
+       [Clause('prune/' + lbl, (lambda i: lambda x, m: _pop_inv2(x, m)[i][1])(ii))
+        for ii, lbl in enumerate(POP2_LABELS)],
+       havoc=['self._selector_tree'], before=_pop_before2, body_start=_pop_step2)
